@@ -154,6 +154,7 @@ class ProductState:
             Dictionary of outcomes, where the state is key and its outcome measurement
         is the value (int)
         """
+        from photon_weave.state.custom_state import CustomState
         from photon_weave.state.polarization import Polarization, PolarizationLabel
 
         assert all(
@@ -201,7 +202,8 @@ class ProductState:
                 remaining_states.remove(state)
 
                 # Handle post measurement processes
-                if destructive:
+                # Custom states are never destroyed, they keep the measured state
+                if destructive and not isinstance(state, CustomState):
                     state._set_measured()
                 else:
                     if isinstance(state, Polarization):
@@ -257,7 +259,8 @@ class ProductState:
 
                 # Remove the mesaured state from the remaining states
                 remaining_states.remove(state)
-                if destructive:
+                # Custom states are never destroyed, they keep the measured state
+                if destructive and not isinstance(state, CustomState):
                     state._set_measured()
                 else:
                     if isinstance(state, Polarization):
